@@ -227,7 +227,7 @@ theorem source_decision_logic : CV.Facts.logicC18 = [
   "internal..normalizeStruct: { m := make(map[string]interface{}) for i := 0; i < structValue.NumField(); i++ { fieldType := structValue.Type().Field(i) fieldValue := structValue.Field(i) if fieldType.PkgPath == \"\" { fieldName := fieldType.Name cloverTag := fieldType.Tag.Get(\"clover\") name, omitempty := processStructTag(cloverTag) if name != \"\" { fieldName = name } if !omitempty || !isEmptyValue(fieldValue) { normalized, err := Normalize(structValue.Field(i).Interface()) if err != nil { return nil, err } if !fieldType.Anonymous { m[fieldName] = normalized } else { if normalizedMap, ok := normalized.(map[string]interface{}); ok { for k, v := range normalizedMap { m[k] = v } } else { m[fieldName] = normalized } } } } } return m, nil }", 
   "internal..processStructTag: { tags := strings.Split(tagStr, \",\") name := tags[0] omitempty := len(tags) > 1 && tags[1] == \"omitempty\" return name, omitempty }", 
   "internal..rename: { rv := reflect.ValueOf(v) if rv.Type().Kind() != reflect.Struct { return nil } renameMap := createRenameMap(rv) m := make(map[string]interface{}) for key, value := range fields { renamedFieldName := renameMap[key] if renamedFieldName != \"\" { m[renamedFieldName] = value } else { m[key] = value } } return m }", 
-  "internal..renameMapKeys: { rv, rt := getElemValueAndType(v) if rt.Kind() != reflect.Struct { return m } renamed := rename(m, rv.Interface()) for i := 0; i < rv.NumField(); i++ { sf := rv.Type().Field(i) key := sf.Name if jsonTagStr, found := sf.Tag.Lookup(\"json\"); found { if name, _ := processStructTag(jsonTagStr); name != \"\" { key = name } } fv := renamed[key] ft := getElemType(sf.Type) fMap, isMap := fv.(map[string]interface{}) if isMap && ft.Kind() == reflect.Struct { converted := renameMapKeys(fMap, reflect.New(ft).Interface()) renamed[key] = converted } } return renamed }", 
+  "internal..renameMapKeys: { rv, rt := getElemValueAndType(v) if rt.Kind() != reflect.Struct { return m } renamed := rename(m, rv.Interface()) for i := 0; i < rv.NumField(); i++ { sf := rv.Type().Field(i) if ft := getElemType(sf.Type); sf.Anonymous && ft.Kind() == reflect.Struct { if _, isMap := renamed[sf.Name].(map[string]interface{}); !isMap { renamed = renameMapKeys(renamed, reflect.New(ft).Interface()) continue } } key := sf.Name if jsonTagStr, found := sf.Tag.Lookup(\"json\"); found { if name, _ := processStructTag(jsonTagStr); name != \"\" { key = name } } if fv, found := renamed[key]; found { renamed[key] = renameValue(fv, sf.Type) } } return renamed }", 
   "util..CopyMap: { mapCopy := make(map[string]interface{}) for k, v := range m { mapValue, ok := v.(map[string]interface{}) if ok { mapCopy[k] = CopyMap(mapValue) } else { mapCopy[k] = v } } return mapCopy }", 
   "util..MapKeys: { keys := make([]string, 0, len(m)) for key, value := range m { added := false if includeSubKeys { subMap, isMap := value.(map[string]interface{}) if isMap { subFields := MapKeys(subMap, false, includeSubKeys) for _, subKey := range subFields { keys = append(keys, key+\".\"+subKey) } added = true } } if !added { keys = append(keys, key) } } if sorted { sort.Slice(keys, func(i, j int) bool { return keys[i] < keys[j] }) } return keys }"] := by rfl
 
